@@ -7,13 +7,18 @@ Abstract space: one member `n` of an object schema, described by
 * `inreq`   — is `n` listed in `required`?
 * `dflt`    — class of the schema's `default` (not given / null / falsy scalar / truthy scalar /
               string / empty list / non-empty list / empty dict / non-empty dict)
-* `nullsrc` — input dialect and the way the schema admits null (JSON Schema or OpenAPI; not at
-              all / type list containing "null" / OpenAPI `nullable: true`)
+* `nullsrc` — the way the schema admits null: not at all / type list containing "null" (JSON
+              Schema, OpenAPI 3.1) / OpenAPI `nullable: true`. The input dialect itself is not part
+              of the model: JSON-Schema and OpenAPI documents take the same code path except for
+              `OpenAPIParser.get_data_type`, which only looks at `nullable` (the harness runs both
+              dialects against the same model vector)
 * `ty`      — scalar, array or object(dict) typed member (they take different parser paths)
 * `constr`  — does the schema carry a constraint keyword (maxLength / maximum / maxItems)?
 * `kind`    — output model kind
-* `opts`    — strict-nullable, use-default, force-optional, strip-default-none,
-              use-default-kwarg, use-annotated, field-constraints
+* `opts`    — strict-nullable, use-default, force-optional, strip-default-none, use-annotated,
+              field-constraints. (`use-default-kwarg` only rewrites `Field(x, …)` into
+              `Field(default=x, …)`; the harness checks that spelling separately and normalises it
+              away, so the model — and every theorem — is independent of it.)
 
 Stages (each a transliteration of the code named in its doc comment):
 `fromSchema` (parser) → `render` (field class + class template, the template part being the
@@ -42,7 +47,7 @@ inductive Ty where
   deriving DecidableEq, Repr, Inhabited
 
 inductive NullSrc where
-  | jsNo | jsTypelist | oaNo | oaFlag | oaTypelist
+  | no | typelist | flag
   deriving DecidableEq, Repr, Inhabited
 
 structure Opts where
@@ -50,7 +55,6 @@ structure Opts where
   ud : Bool  -- apply_default_values_for_required_fields (--use-default)
   fo : Bool  -- force_optional_for_required_fields
   sd : Bool  -- strip_default_none
-  kw : Bool  -- use_default_kwarg
   an : Bool  -- use_annotated
   fc : Bool  -- field_constraints
   deriving DecidableEq, Repr, Inhabited
@@ -93,7 +97,7 @@ def Dflt.fits : Dflt → Ty → Bool
 
 /-- the schema admits null -/
 def NullSrc.admitsNull : NullSrc → Bool
-  | .jsNo | .oaNo => false
+  | .no => false
   | _ => true
 
 /-- Vectors that can be realised and that the generator accepts: the default fits the type, no
@@ -103,6 +107,39 @@ def Vec.valid (v : Vec) : Bool :=
   v.dflt.fits v.ty && !(v.constr && v.ty == .object) && !(v.opts.an && !v.opts.fc)
 
 /-! ## Stage 1 — `JsonSchemaParser.parse_object_fields` / `get_object_field`, `OpenAPIParser.get_data_type` -/
+
+/-- The vector after `parse_object_fields` has decided `required`: membership in the `required`
+list, `--force-optional` and `--use-default` influence the generator through this one Boolean only
+(everything below is a function of the reduced vector, which is what makes the exhaustive kernel
+proofs four times smaller). -/
+structure RVec where
+  kind : Kind
+  nullsrc : NullSrc
+  required : Bool
+  dflt : Dflt
+  ty : Ty
+  constr : Bool
+  sn : Bool
+  sd : Bool
+  an : Bool
+  fc : Bool
+  deriving DecidableEq, Repr, Inhabited
+
+/-- `parse_object_fields`:
+```
+if self.force_optional_for_required_fields or (self.apply_default_values_for_required_fields and field.has_default):
+    required = False
+else:
+    required = original_field_name in requires
+``` -/
+def Vec.reduce (v : Vec) : RVec :=
+  { kind := v.kind, nullsrc := v.nullsrc
+    required := if v.opts.fo || (v.opts.ud && v.dflt.given) then false else v.inreq
+    dflt := v.dflt, ty := v.ty, constr := v.constr
+    sn := v.opts.sn, sd := v.opts.sd, an := v.opts.an, fc := v.opts.fc }
+
+def RVec.valid (v : RVec) : Bool :=
+  v.dflt.fits v.ty && !(v.constr && v.ty == .object) && !(v.an && !v.fc)
 
 /-- state of `field.constraints` -/
 inductive Cons where
@@ -120,7 +157,6 @@ structure FieldRec where
   stripDefaultNone : Bool
   dataTypeIsOptional : Bool
   useAnnotated : Bool
-  useDefaultKwarg : Bool
   constraints : Cons
   ty : Ty
   deriving DecidableEq, Repr, Inhabited
@@ -129,49 +165,48 @@ structure FieldRec where
 `OpenAPIParser.get_data_type` rewrites `type: T, nullable: true` into `[T, "null"]` under
 strict-nullable — but `get_data_type` is only reached for scalar members (arrays go through
 `parse_array_fields`, `type: object` through `parse_object`/dict handling). -/
-def typeListHasNull (v : Vec) : Bool :=
+def typeListHasNull (v : RVec) : Bool :=
   match v.nullsrc with
-  | .jsTypelist | .oaTypelist => true
-  | .oaFlag => v.opts.sn && v.ty == .scalar
-  | _ => false
+  | .typelist => true
+  | .flag => v.sn && v.ty == .scalar
+  | .no => false
 
 /-- `JsonSchemaObject.nullable` (the OpenAPI keyword; default `False`) -/
-def schemaNullableFlag (v : Vec) : Bool :=
+def schemaNullableFlag (v : RVec) : Bool :=
   match v.nullsrc with
-  | .oaFlag => true
+  | .flag => true
   | _ => false
 
 /-- `DataType.is_optional` of the member's data type: `get_data_type` sets it from
 `"null" in obj.type`; a type *list* is never `is_object`, so list-typed objects also take that
 path; arrays never do. -/
-def dataTypeIsOptional (v : Vec) : Bool :=
+def dataTypeIsOptional (v : RVec) : Bool :=
   typeListHasNull v && v.ty != .array
 
 /-- `is_constraints_field(field)`: `obj.is_array or (field_constraints and not (… or obj.is_object or …))`;
 `is_object` needs `type == "object"` (a string), so a type list is not an object. -/
-def constraintsOf (v : Vec) : Cons :=
-  let isObjectStr := v.ty == .object && !(v.nullsrc == .jsTypelist || v.nullsrc == .oaTypelist)
-  if v.ty == .array || (v.opts.fc && !isObjectStr) then
+def constraintsOf (v : RVec) : Cons :=
+  let isObjectStr := v.ty == .object && !(v.nullsrc == .typelist)
+  if v.ty == .array || (v.fc && !isObjectStr) then
     (if v.constr then .keyword else .empty)
   else .none
 
-def fromSchema (v : Vec) : FieldRec :=
+/-- `get_object_field` -/
+def fromReduced (v : RVec) : FieldRec :=
   let hasDefault := v.dflt.given
-  -- parse_object_fields
-  let required :=
-    if v.opts.fo || (v.opts.ud && hasDefault) then false else v.inreq
-  { required := required
+  { required := v.required
     -- nullable=field.nullable if self.strict_nullable and (field.has_default or required) else None
-    nullable := if v.opts.sn && (hasDefault || required) then some (schemaNullableFlag v) else none
+    nullable := if v.sn && (hasDefault || v.required) then some (schemaNullableFlag v) else none
     hasDefault := hasDefault
     dflt := v.dflt
     typeHasNull := typeListHasNull v
-    stripDefaultNone := v.opts.sd
+    stripDefaultNone := v.sd
     dataTypeIsOptional := dataTypeIsOptional v
-    useAnnotated := v.opts.an
-    useDefaultKwarg := v.opts.kw
+    useAnnotated := v.an
     constraints := constraintsOf v
     ty := v.ty }
+
+def fromSchema (v : Vec) : FieldRec := fromReduced v.reduce
 
 /-! ## Stage 2a — `DataModelFieldBase.type_hint` -/
 
@@ -201,8 +236,7 @@ inductive Asg where
   | none                 -- no `= …`
   | lit (d : DV)         -- `= <repr(default)>`
   | fieldReq             -- `= Field(..., …)`
-  | fieldPos (d : DV)    -- `= Field(<repr(default)>, …)`
-  | fieldKw (d : DV)     -- `= Field(default=<repr(default)>, …)`
+  | fieldDflt (d : DV)   -- `= Field(<repr(default)>, …)` or, under use_default_kwarg, `= Field(default=<repr(default)>, …)`
   | fieldNoDefault       -- `= Field(<keywords only>)`
   | factory (d : DV)     -- `= field(default_factory=lambda :<repr(default)>)`
   deriving DecidableEq, Repr, Inhabited
@@ -247,14 +281,14 @@ def pydAnnotated (f : FieldRec) : Ann :=
     | .ellipsisOnly => .req
     | _ => .plain
 
-/-- pydantic `field`: `str(self)`, with `Field(` → `Field(default=` under use_default_kwarg
-unless it starts with `Field(...` -/
+/-- pydantic `field`: `str(self)` (with `Field(` → `Field(default=` under use_default_kwarg
+unless it starts with `Field(...`: spelling only, not modelled) -/
 def pydFieldAsg (f : FieldRec) : Option Asg :=
   match pydStr f with
   | .empty => none
   | .ellipsisOnly | .req => some .fieldReq
   | .argsOnly => some .fieldNoDefault
-  | .dflt => some (if f.useDefaultKwarg then .fieldKw f.dflt else .fieldPos f.dflt)
+  | .dflt => some (.fieldDflt f.dflt)
 
 /-- dataclass `DataModelField.__str__` / `field` -/
 def dcFieldAsg (f : FieldRec) : Option Asg :=
@@ -398,19 +432,36 @@ def envOf (f : FieldRec) (fv : FieldView) : Env :=
     dataTypeIsOptional := f.dataTypeIsOptional
     nullable := f.nullable == some true }
 
-def renderField (k : Kind) (f : FieldRec) : Shape :=
+/-- what the class template writes for one member -/
+structure Decision where
+  useAnnotated : Bool    -- the annotation is `field.annotated` (else `field.type_hint`)
+  assignField : Bool     -- ` = {{ field.field }}`
+  assignDefault : Bool   -- ` = {{ field.represented_default }}`
+  deriving DecidableEq, Repr
+
+/-- the decision read off the generated table of the kind's template -/
+def tableDecision (k : Kind) (e : Env) : Decision :=
+  let em := emitted k e
+  ⟨em.contains .annotated, em.contains .assignField, em.contains .assignDefault⟩
+
+/-- The rendered member, given the template's decision function `dec` (the model instantiates it
+with `tableDecision`; proofs replace it by a closed form proved equal to the table). -/
+def renderFieldD (dec : Kind → Env → Decision) (k : Kind) (f : FieldRec) : Shape :=
   let fv := fieldView k f
-  let em := emitted k (envOf f fv)
-  let useAnn := em.contains .annotated
-  { opt := if useAnn then fv.annOpt else fieldTypeHintOptional k f
+  let d := dec k (envOf f fv)
+  { opt := if d.useAnnotated then fv.annOpt else fieldTypeHintOptional k f
     nr := notRequired k f
-    ann := if useAnn then fv.annotated else .no
+    ann := if d.useAnnotated then fv.annotated else .no
     asg :=
-      if em.contains .assignField then fv.fieldAsg.getD .none
-      else if em.contains .assignDefault then .lit f.dflt
+      if d.assignField then fv.fieldAsg.getD .none
+      else if d.assignDefault then .lit f.dflt
       else .none }
 
-def render (v : Vec) : Shape := renderField v.kind (fromSchema v)
+def renderD (dec : Kind → Env → Decision) (v : RVec) : Shape := renderFieldD dec v.kind (fromReduced v)
+
+def renderField : Kind → FieldRec → Shape := renderFieldD tableDecision
+
+def render (v : Vec) : Shape := renderD tableDecision v.reduce
 
 /-! ## Stage 3 — authored semantics of the rendered member in the target library -/
 
@@ -430,7 +481,7 @@ structure Sem where
 
 /-- the default carried by an assignment, if any -/
 def Asg.default? : Asg → Option DV
-  | .lit d | .fieldPos d | .fieldKw d | .factory d => some d
+  | .lit d | .fieldDflt d | .factory d => some d
   | _ => Option.none
 
 def semOf (k : Kind) (s : Shape) : Sem :=
@@ -469,14 +520,16 @@ def semOf (k : Kind) (s : Shape) : Sem :=
       | some d => ⟨true, false, s.opt, .value d, false⟩
       | none => ⟨false, false, s.opt, .rejected, false⟩
 
-def sem (v : Vec) : Sem := semOf v.kind (render v)
+def semD (dec : Kind → Env → Decision) (v : RVec) : Sem := semOf v.kind (renderD dec v)
+
+def sem (v : Vec) : Sem := semD tableDecision v.reduce
 
 /-! ## Enumeration of the finite space (for `decide`) -/
 
 def Kind.all : List Kind := [.v1, .v2, .dc, .td, .ms]
 def Dflt.all : List Dflt := [.none, .null, .falsy, .truthy, .str, .listE, .listN, .dictE, .dictN]
 def Ty.all : List Ty := [.scalar, .array, .object]
-def NullSrc.all : List NullSrc := [.jsNo, .jsTypelist, .oaNo, .oaFlag, .oaTypelist]
+def NullSrc.all : List NullSrc := [.no, .typelist, .flag]
 
 theorem Kind.mem_all (k : Kind) : k ∈ Kind.all := by cases k <;> decide
 theorem Dflt.mem_all (k : Dflt) : k ∈ Dflt.all := by cases k <;> decide
@@ -492,21 +545,25 @@ instance {p : Ty → Prop} [DecidablePred p] : Decidable (∀ k, p k) :=
 instance {p : NullSrc → Prop} [DecidablePred p] : Decidable (∀ k, p k) :=
   decidable_of_iff (∀ k ∈ NullSrc.all, p k) ⟨fun h k => h k (NullSrc.mem_all k), fun h k _ => h k⟩
 
-/-- quantification over all vectors, component by component (each component type is finite) -/
-def ForallVec (p : Vec → Prop) : Prop :=
-  ∀ (k : Kind) (n : NullSrc) (r : Bool) (d : Dflt) (t : Ty) (c : Bool)
-    (sn ud fo sd kw an fc : Bool), p ⟨k, n, r, d, t, c, ⟨sn, ud, fo, sd, kw, an, fc⟩⟩
+/-- Quantification over all *valid* reduced vectors satisfying an early guard `g`, component by
+component (each component type is finite); guards are placed as early as possible so that a
+kernel `decide` never descends into pruned sub-spaces. -/
+def AllR (g : Bool → Dflt → NullSrc → Bool) (p : RVec → Prop) : Prop :=
+  ∀ (r : Bool) (d : Dflt) (n : NullSrc), g r d n = true →
+  ∀ (t : Ty), d.fits t = true → ∀ (c : Bool), (c && t == .object) = false →
+  ∀ (an fc : Bool), (an && !fc) = false →
+  ∀ (k : Kind) (sn sd : Bool), p ⟨k, n, r, d, t, c, sn, sd, an, fc⟩
 
-theorem forallVec_iff (p : Vec → Prop) : ForallVec p ↔ ∀ v, p v :=
-  ⟨fun h v => by
-    obtain ⟨k, n, r, d, t, c, ⟨sn, ud, fo, sd, kw, an, fc⟩⟩ := v
-    exact h k n r d t c sn ud fo sd kw an fc,
-   fun h _ _ _ _ _ _ _ _ _ _ _ _ _ => h _⟩
+instance {g} {p : RVec → Prop} [DecidablePred p] : Decidable (AllR g p) := by
+  unfold AllR; exact inferInstance
 
-instance {p : Vec → Prop} [DecidablePred p] : Decidable (ForallVec p) := by
-  unfold ForallVec; exact inferInstance
+theorem allR {g} {p : RVec → Prop} (h : AllR g p) :
+    ∀ v : RVec, v.valid = true → g v.required v.dflt v.nullsrc = true → p v := by
+  intro v hv hg
+  obtain ⟨k, n, r, d, t, c, sn, sd, an, fc⟩ := v
+  simp only [RVec.valid, Bool.and_eq_true, Bool.not_eq_true'] at hv
+  exact h r d n hg t hv.1.1 c hv.1.2 an fc hv.2 k sn sd
 
-instance {p : Vec → Prop} [DecidablePred p] : Decidable (∀ v, p v) :=
-  decidable_of_iff (ForallVec p) (forallVec_iff p)
+theorem Vec.valid_reduce (v : Vec) : v.reduce.valid = v.valid := rfl
 
 end Dcg.Model.Field
